@@ -102,27 +102,111 @@ instance (d p : Str) : Decidable (Under d p) := by unfold Under; infer_instance
 /-- the pattern can only match paths below `d` -/
 def Confined (d : Str) (r : Pattern) : Prop := ∀ p, r.m p = true → Under d p
 
-/-- a non-root directory string whose characters have no special meaning in a glob -/
-def PlainDir (d : Str) : Prop := d ≠ [] ∧ ∀ c ∈ d, plainChar c = true
+/-- a non-root directory string.  (Before the F32 repair the characters also had to be free of glob
+    metacharacters; with the directory part escaped every name is a literal.) -/
+def PlainDir (d : Str) : Prop := d ≠ []
 
 instance (d : Str) : Decidable (PlainDir d) := by unfold PlainDir; infer_instance
 
+/-! ### the escaped directory part is a literal -/
+
+/-- what `unescape` makes of an escaped literal -/
+def escMCh (c : Char) : MCh :=
+  if c = '*' ∨ c = '?' ∨ c = '[' ∨ c = ']' ∨ c = '{' ∨ c = '}' ∨ c = '!' ∨ c = '\\' then .esc c else .raw c
+
+theorem unescChar_special (c : Char) (h : c = '*' ∨ c = '?' ∨ c = '[' ∨ c = ']' ∨ c = '{' ∨ c = '}' ∨ c = '!' ∨ c = '\\') :
+    unescChar c = c := by
+  rcases h with h | h | h | h | h | h | h | h <;> subst h <;> decide
+
+theorem unescape_escape_append : ∀ (d r : Str), unescape (escapeGlob d ++ r) = d.map escMCh ++ unescape r
+  | [], r => rfl
+  | c :: d, r => by
+    by_cases h : c = '*' ∨ c = '?' ∨ c = '[' ∨ c = ']' ∨ c = '{' ∨ c = '}' ∨ c = '!' ∨ c = '\\'
+    · simp only [escapeGlob, h, if_true, List.cons_append, List.map_cons, escMCh]
+      rw [unescape, unescChar_special c h, unescape_escape_append d r]
+    · have hb : c ≠ '\\' := fun e => h (by simp [e])
+      simp only [escapeGlob, h, if_false, List.cons_append, List.map_cons, escMCh]
+      rw [unescape_plain_cons _ _ hb, unescape_escape_append d r]
+
+theorem tokenize_esc_cons (seg : Bool) (c : Char) (r : List MCh) :
+    tokenize seg .normal (.esc c :: r) = .lit c :: tokenize (c == '/') .normal r := by
+  conv => lhs; unfold tokenize
+
+theorem tokenize_escMCh_cons (seg : Bool) (c : Char) (r : List MCh) :
+    tokenize seg .normal (escMCh c :: r) = .lit c :: tokenize (c == '/') .normal r := by
+  unfold escMCh
+  by_cases h : c = '*' ∨ c = '?' ∨ c = '[' ∨ c = ']' ∨ c = '{' ∨ c = '}' ∨ c = '!' ∨ c = '\\'
+  · simp only [h, if_true]; exact tokenize_esc_cons seg c r
+  · simp only [h, if_false]
+    apply tokenize_plain_cons
+    simp only [plainChar, Bool.not_eq_true', Bool.or_eq_false_iff, beq_eq_false_iff_ne, ne_eq]
+    refine ⟨⟨⟨?_, ?_⟩, ?_⟩, ?_⟩ <;> (intro e; apply h; simp [e])
+
+theorem tokenize_escaped_append (seg : Bool) (d : Str) (r : List MCh) :
+    ∃ seg', tokenize seg .normal (d.map escMCh ++ r) = d.map .lit ++ tokenize seg' .normal r := by
+  induction d generalizing seg with
+  | nil => exact ⟨seg, rfl⟩
+  | cons c d ih =>
+    obtain ⟨s', h⟩ := ih (c == '/')
+    exact ⟨s', by simp only [List.map_cons, List.cons_append]; rw [tokenize_escMCh_cons, h]⟩
+
+/-- **F32**: a glob that starts with the escaped string `d` only matches paths that start with `d` —
+    for every `d`, whatever characters it contains -/
+theorem globMatch_escaped_prefix (d r p : Str) (h : globMatch (escapeGlob d ++ r) p = true) :
+    ∃ q, p = d ++ q ∧ ∃ seg, matchToks (tokenize seg .normal (unescape r)) q = true := by
+  unfold globMatch globToks at h
+  rw [unescape_escape_append d r] at h
+  obtain ⟨s', hs⟩ := tokenize_escaped_append true d (unescape r)
+  rw [hs] at h
+  obtain ⟨q, hq, hm⟩ := matchToks_lits d _ p h
+  exact ⟨q, hq, s', hm⟩
+
+theorem matchToks_lit_self : ∀ n : Str, matchToks (n.map .lit) n = true
+  | [] => by simp [matchToks]
+  | c :: n => by simp [matchToks, matchToks_lit_self n]
+
+/-- the escaped directory matches exactly the literal directory (`escape_glob` round-trips) -/
+theorem globMatch_escaped_iff (d p : Str) : globMatch (escapeGlob d) p = true ↔ p = d := by
+  constructor
+  · intro h
+    have h' : globMatch (escapeGlob d ++ []) p = true := by simpa using h
+    obtain ⟨q, hq, seg, hm⟩ := globMatch_escaped_prefix d [] p h'
+    have : tokenize seg CMode.normal (unescape []) = [] := by cases seg <;> simp [unescape, tokenize]
+    rw [this] at hm
+    cases q with
+    | nil => simpa using hq
+    | cons c q => simp [matchToks] at hm
+  · rintro rfl
+    unfold globMatch globToks
+    have h1 := unescape_escape_append p []
+    simp only [List.append_nil, unescape] at h1
+    rw [h1]
+    obtain ⟨s', hs⟩ := tokenize_escaped_append true p []
+    simp only [List.append_nil] at hs
+    rw [hs]
+    have : tokenize s' CMode.normal [] = [] := by cases s' <;> simp [tokenize]
+    rw [this, List.append_nil]
+    exact matchToks_lit_self p
+
 theorem transform_prefix (line cur : Str) (rd : Option Str) (ds : Bool) (hc : cur ≠ [])
     (hrd : rd = none ∨ rd = some cur) :
-    ∃ rest, transformPatternForGlob line cur rd ds = (cur ++ ['/']) ++ rest := by
-  have hne : cur.isEmpty = false := by cases cur <;> simp_all
+    ∃ rest, transformPatternForGlob line cur rd ds = escapeGlob cur ++ '/' :: rest := by
+  have hne : (escapeGlob cur).isEmpty = false := by
+    cases cur with
+    | nil => exact absurd rfl hc
+    | cons c r => unfold escapeGlob; split <;> simp
   have e1 : "/**/".toList = ['/', '*', '*', '/'] := by decide
   rcases hrd with h | h <;> subst h <;> cases ds <;>
-    simp only [transformPatternForGlob, hne, e1, Bool.false_eq_true, if_false] <;>
+    simp only [transformPatternForGlob, hne, e1, Option.map_none, Option.map_some, Bool.false_eq_true, if_false] <;>
     exact ⟨_, by simp only [List.append_assoc, List.cons_append, List.nil_append]; rfl⟩
 
 theorem relDir_cases (b : Bool) (cur : Str) :
     (if b = true then some cur else none) = none ∨ (if b = true then some cur else none) = some cur := by
   cases b <;> simp
 
-/-- after the F8 repair the glob of every pattern of a non-root source starts with the source directory -/
+/-- after the F8 and F32 repairs the glob of every pattern of a non-root source starts with the escaped source directory -/
 theorem new_glob_prefix (src : Source) (line : Str) (hc : currentDir src ≠ []) :
-    ∃ rest, (Pattern.new src line).glob = (currentDir src ++ ['/']) ++ rest := by
+    ∃ rest, (Pattern.new src line).glob = escapeGlob (currentDir src) ++ '/' :: rest := by
   unfold Pattern.new
   simp only []
   apply transform_prefix _ _ _ _ hc
@@ -147,15 +231,27 @@ theorem currentDir_head (src : Source) : currentDir src = [] ∨ ∃ r, currentD
       | cons c r => right; exact ⟨(c :: r).dropLast, by simp [List.dropLast]⟩
     · right; exact ⟨r, rfl⟩
 
+theorem escapeGlob_head (r : Str) : ∃ r', escapeGlob ('/' :: r) = '/' :: r' := by
+  unfold escapeGlob
+  have : ¬ ('/' = '*' ∨ '/' = '?' ∨ '/' = '[' ∨ '/' = ']' ∨ '/' = '{' ∨ '/' = '}' ∨ '/' = '!' ∨ '/' = '\\') := by decide
+  simp only [this, if_false]
+  exact ⟨_, rfl⟩
+
 theorem transform_head (line cur : Str) (rd : Option Str) (ds : Bool)
     (hc : cur = [] ∨ ∃ r, cur = '/' :: r) (hrd : rd = none ∨ rd = some cur) :
     ∃ c rest, transformPatternForGlob line cur rd ds = c :: rest ∧ (c = '*' ∨ c = '/') := by
   have e1 : "/**/".toList = ['/', '*', '*', '/'] := by decide
   have e2 : "**/".toList = ['*', '*', '/'] := by decide
-  rcases hc with rfl | ⟨r, rfl⟩ <;> rcases hrd with h | h <;> subst h <;> cases ds <;>
-    simp only [transformPatternForGlob, e1, e2, List.isEmpty_nil, List.isEmpty_cons, if_true, Bool.false_eq_true, if_false,
-      List.nil_append, List.cons_append] <;>
-    exact ⟨_, _, rfl, by simp⟩
+  rcases hc with rfl | ⟨r, rfl⟩
+  · rcases hrd with h | h <;> subst h <;> cases ds <;>
+      simp only [transformPatternForGlob, escapeGlob, e1, e2, Option.map_none, Option.map_some, List.isEmpty_nil, if_true,
+        List.nil_append, List.cons_append] <;>
+      exact ⟨_, _, rfl, by simp⟩
+  · obtain ⟨r', hr'⟩ := escapeGlob_head r
+    rcases hrd with h | h <;> subst h <;> cases ds <;>
+      simp only [transformPatternForGlob, hr', e1, e2, Option.map_none, Option.map_some, List.isEmpty_cons, Bool.false_eq_true,
+        if_false, List.cons_append] <;>
+      exact ⟨_, _, rfl, by simp⟩
 
 theorem new_glob_head (src : Source) (line : Str) :
     ∃ c rest, (Pattern.new src line).glob = c :: rest ∧ (c = '*' ∨ c = '/') := by
@@ -166,14 +262,18 @@ theorem new_glob_head (src : Source) (line : Str) :
 theorem new_confined (src : Source) (line : Str) (hd : PlainDir (currentDir src)) :
     Confined (currentDir src) (Pattern.new src line) := by
   intro p hm
-  obtain ⟨rest, hg⟩ := new_glob_prefix src line hd.1
+  obtain ⟨rest, hg⟩ := new_glob_prefix src line hd
   unfold Pattern.m at hm
   rw [hg] at hm
-  refine globMatch_plain_prefix _ rest p ?_ hm
-  intro c hc
-  rcases List.mem_append.1 hc with h | h
-  · exact hd.2 c h
-  · simp only [List.mem_singleton] at h; subst h; decide
+  obtain ⟨q, hq, seg, hq2⟩ := globMatch_escaped_prefix _ _ p hm
+  -- the rest of the glob starts with the literal '/'
+  rw [unescape_plain_cons _ _ (by decide), tokenize_plain_cons _ _ _ (by decide)] at hq2
+  cases q with
+  | nil => simp [matchToks] at hq2
+  | cons x xs =>
+    simp only [matchToks, Bool.and_eq_true, beq_iff_eq] at hq2
+    unfold Under
+    exact ⟨xs, by rw [hq, hq2.1]; simp⟩
 
 /-! ## interference that cannot change a verdict -/
 
